@@ -67,6 +67,7 @@ func vhAggCall(tag string, fam int) Call {
 		c.Args.Values = []Arg{vhArg(tag+".a0", fam), {IsAggregate: true, Fields: Args{Values: []Arg{vhArg(tag+".a1", fam)}}}}
 		if fam == famArgFlags {
 			c.Args.Elided = vBool(tag + ".elided")
+			c.Args.Values[1].Fields.Elided = vBool(tag + ".elidedfields")
 		}
 	case famFrame:
 		c.Func.Complete = vString(tag+".fn", 1)
@@ -471,6 +472,31 @@ func VH_Agg_Deterministic(k, fam, level, perm int) {
 		}
 		vAssert(x.First == y.First, "same first flag on every run")
 		vAssert(vhSigEq(&x.Signature, &y.Signature), "same merged signature on every run")
+	}
+}
+
+// VH_Agg_TotalOrder: determinism without running twice: for every map
+// iteration order the emitted sequence must follow one total order (relevance,
+// then size, then lowest id), so no two orders can give different sequences.
+// Four goroutines are needed for two non-first buckets of different sizes.
+//
+//verif:prop C06
+//verif:param k quick=4 thorough=3..4
+//verif:param fam quick=0 thorough=0..6
+//verif:param level quick=1 thorough=0..3
+//verif:param perm quick=7,23 thorough=0..23
+//verif:summarize (*Signature).similar (*Signature).equal (*Signature).less (*Stack).less
+//verif:replay-iters 300
+func VH_Agg_TotalOrder(k, fam, level, perm int) {
+	s := vhSnapshot(k, fam, 1, 1, perm)
+	a := s.Aggregate(Similarity(level))
+	vReach("aggregated")
+	for i := 0; i+1 < len(a.Buckets); i++ {
+		x, y := a.Buckets[i], a.Buckets[i+1]
+		xy, yx := x.Signature.less(&y.Signature), y.Signature.less(&x.Signature)
+		bySize := len(x.IDs) < len(y.IDs) || (len(x.IDs) == len(y.IDs) && x.IDs[0] < y.IDs[0])
+		ok := vOr(x.First, vAnd(vNot(y.First), vOr(xy, vAnd(vNot(yx), bySize))))
+		vAssert(ok, "adjacent buckets follow the total order (first, relevance, size, lowest id)")
 	}
 }
 
